@@ -156,6 +156,16 @@ def check(ctx, files, unsplit, models, tags, k):
                 f.write(files[i])
         results.append(walk_outcomes(d, models))
         ctx.monitor("directory_walk_comparisons")
+    # third layout: one sub-directory per file, all files with the same base name
+    shutil.rmtree(d, ignore_errors=True)
+    os.makedirs(d)
+    for i, t in enumerate(files):
+        os.makedirs(os.path.join(d, "part%d" % i))
+        with open(os.path.join(d, "part%d" % i, "package.mo"), "w") as f:
+            f.write(t)
+    results.append(walk_outcomes(d, models))
+    ctx.monitor("directory_walk_comparisons")
+    ctx.cover("layout:same-base-name-in-several-directories")
     shutil.rmtree(d, ignore_errors=True)
     for layout, res in enumerate(results):
         for key, val in res.items():
